@@ -212,6 +212,8 @@ func encVal(v Val) []byte {
 		out = append(out, '\r', '\n')
 	case "null":
 		out = append(out, "$-1\r\n"...)
+	case "narr": // the RESP2 null array (only sent to the parser, never expected back: it is handed out as an empty array)
+		out = append(out, "*-1\r\n"...)
 	case "arr":
 		out = append(out, '*')
 		out = append(out, fmtInt(len(v.E))...)
